@@ -250,7 +250,14 @@ def checkObs (cx : Ctx) (o : Obs) : Option Violation :=
   else if o.overlap then some .overlappingWrite
   else if o.rst && (match uniTypeOf cx o with | some ty => isCriticalTy ty | none => false) then
     some .criticalReset
-  else checkStreamW cx o.sid o.tx o.fin (!o.busy && !o.cut && !o.rst)
+  else
+    -- a FIN the transport took AFTER the send side had ended (h3's RESET_STREAM, the peer's
+    -- STOP_SENDING - to which a QUIC transport answers RESET_STREAM itself, RFC 9000 §3.5 -, the
+    -- end of the connection) finishes nothing: the stream is judged as the prefix it is.  Not so on
+    -- a control / QPACK stream, where FIN is a violation whenever it is there.
+    let ended := o.cut || o.rst
+    let critical := match uniTypeOf cx o with | some ty => isCriticalTy ty | none => false
+    checkStreamW cx o.sid o.tx (o.fin && (critical || !ended)) (!o.busy && !ended)
 
 /-- the second stream of a type of which an endpoint opens exactly one -/
 def firstDuplicate (cx : Ctx) (ty : Nat) (os : List Obs) : Option Nat :=
